@@ -79,6 +79,19 @@ fn c02_q_failure_accounting_and_revocation() {
         vok!(open_basic(&mut p, 16, 180, 7, None), "open");
         p.comm_window.as_opt_mut().unwrap().pake_failures = k;
     }
+    // with or without an in-progress handshake marker (the responder clears it before it
+    // reports a failed confirmation, other paths leave it set)
+    let marker = any_bool();
+    if marker {
+        let sid = any_u32();
+        assume(sid <= 0x0fff_ffff);
+        p.session_timeout = Some(SessionEstTimeout {
+            session_est_expiry: embassy_time::Instant::from_ticks(any_u64()),
+            exch_id: crate::transport::exchange::ExchangeId::new(sid, (any_u8() & 15) as usize),
+        });
+    }
+    vcover!(marker && open);
+    vcover!(!marker && open);
     reset_notifs();
     vok!(p.record_pake_failure(notify, |_, _| {}), "record");
     vassert!(p.session_timeout.is_none(), "ROLE:failure-clears-the-in-progress-handshake");
